@@ -14,7 +14,8 @@ CONSTANTS MaxLen,     \* framing: streams of length 0 .. MaxLen over Bytes
           Classes,    \* request loop: ids of the line classes explored (subset of DOMAIN Cat)
           MaxPend,    \* request loop: bound on unanswered lines in the design model
           Threads,    \* send layer: threads emitting lines on one connection
-          UseLock     \* send layer: TRUE = with the per-connection send lock
+          UseLock,    \* send layer: TRUE = with the per-connection send lock
+          CheckRunning \* send layer: TRUE = a sender looks at the connection's state under the lock
 
 (* ======================================================================== *)
 (* layer 1: framing                                                         *)
@@ -116,7 +117,7 @@ SECoPClasses == {"ProtocolError", "NoSuchModule", "NoSuchParameter", "NoSuchComm
 (*   nonascii  action or specifier token contains bytes >= 0x80                                  *)
 (*   decfail the line cannot be decoded (invalid UTF-8 anywhere, or broken JSON)                 *)
 (*   mal     definitely malformed (NonInterference removes exactly these lines)                  *)
-(* An output descriptor o: [action, spec, iserr, base, err, utf8, strict, nanonly]               *)
+(* An output descriptor o: [action, spec, iserr, base, err, utf8, strict, nanonly, evt]          *)
 (*   iserr   action = "error_" \o base;  err = the error class of the report                     *)
 
 Loose(r) == ~(r.utf8 /\ r.canon)     \* the statement does not define the request's action here
@@ -137,9 +138,10 @@ WellFormedOut(o) == o.utf8 /\ o.strict
 Allowed(r, o) == ActionOK(r, o) /\ SpecOK(r, o) /\ ErrOK(o) /\ WellFormedOut(o)
 
 (* an output line that is not a reply: asynchronous message *)
-(* ("error_update" reports a failed read; it is a reply only if it can answer the oldest open line) *)
+(* "error_update" reports a failed read of a parameter; o.evt (alpha) says that the line names a parameter  *)
+(* of the node and carries its read error, i.e. is such an event and not the answer to a line "update ..." *)
 IsAsync(o, q) == \/ o.action \in AsyncActions
-                 \/ o.iserr /\ o.base = "update" /\ (q = <<>> \/ ~(Loose(Head(q)) \/ Head(q).act = "update"))
+                 \/ o.iserr /\ o.base = "update" /\ (q = <<>> \/ o.evt)
 
 (* ---- the catalogue of line classes (gamma: harness/props/c07.py CLASSES, cross-checked) ---- *)
 Rq(act, spec, f) == [blank |-> "b" \in f, utf8 |-> ~("8" \in f), canon |-> ~("c" \in f),
@@ -177,12 +179,20 @@ Cat == [idn |-> Rq("*IDN?", "", {}), describe |-> Rq("describe", "", {}),
         deep_list_open |-> Rq("change", "m:p", {"d", "m"}), deep_dict_open |-> Rq("change", "m:s", {"d", "m"}),
         deep_list_50k |-> Rq("do", "m:cmd", {"d", "m"}), deep_dict_50k |-> Rq("change", "m:p", {"d", "m"}),
         deep_list |-> Rq("change", "m:p", {}), deep_dict |-> Rq("logging", "m", {}),
-        huge_int |-> Rq("change", "m:p", {})]
+        huge_int |-> Rq("change", "m:p", {}),
+        \* more of the dispatcher: constant parameter, module that failed to initialise, default
+        \* accessibles (value / target), command without argument, non-ASCII text in both directions
+        read_k |-> Rq("read", "m:k", {}), change_k |-> Rq("change", "m:k", {}),
+        read_broken |-> Rq("read", "broken:p", {}), change_broken |-> Rq("change", "broken:p", {}),
+        do_broken |-> Rq("do", "broken:cmd", {}),
+        read_m |-> Rq("read", "m", {}), change_m |-> Rq("change", "m", {}),
+        do_stop |-> Rq("do", "m:stop", {}), change_t |-> Rq("change", "m:t", {}), read_t |-> Rq("read", "m:t", {}),
+        surrogate_t |-> Rq("change", "m:t", {})]      \* "\ud800": valid JSON, text that cannot be encoded as UTF-8
 
 (* the replies the statement allows for a request (constructive form of Allowed) *)
 MkOut(action, spec, iserr, base, err) ==
     [action |-> action, spec |-> spec, iserr |-> iserr, base |-> base, err |-> err,
-     utf8 |-> TRUE, strict |-> TRUE, nanonly |-> FALSE]
+     utf8 |-> TRUE, strict |-> TRUE, nanonly |-> FALSE, evt |-> FALSE]
 SpecSet(r) == {r.spec} \cup (IF r.act = "describe" /\ r.spec \in {"", "."} THEN {"", "."} ELSE {})
                        \cup (IF r.act \in {"help", "*IDN?"} THEN {""} ELSE {})
 ReplySet(r) ==
@@ -193,60 +203,93 @@ ReplySet(r) ==
 
 VARIABLES pend,     \* requests (descriptors) whose reply is still owed, oldest first
           last,     \* the last observable step of the loop
-          serving   \* the handler is still serving the connection
-lvars == <<pend, last, serving>>
+          serving,  \* the handler is still serving the connection
+          peer      \* what the peer did to the connection: "open" | "eof" (closed after its last byte) |
+                    \* "reset" (receiving fails: connection reset) | "deaf" (sending failed: broken pipe / time-out)
+lvars == <<pend, last, serving, peer>>
 NoStep == [kind |-> "none"]
 
-LInit == pend = <<>> /\ last = NoStep /\ serving = TRUE
+LInit == pend = <<>> /\ last = NoStep /\ serving = TRUE /\ peer = "open"
 
-Arrive(r) == /\ serving
+Arrive(r) == /\ serving /\ peer = "open"
              /\ pend' = Append(pend, r)
              /\ last' = [kind |-> "in"]
-             /\ UNCHANGED serving
+             /\ UNCHANGED <<serving, peer>>
 
-Answer(o) == /\ serving /\ pend # <<>>
+Answer(o) == /\ serving /\ pend # <<>> /\ peer # "deaf"
              /\ ~IsAsync(o, pend)
              /\ last' = [kind |-> "reply", req |-> Head(pend), out |-> o]
              /\ pend' = Tail(pend)
-             /\ UNCHANGED serving
+             /\ UNCHANGED <<serving, peer>>
 
-AsyncOut(o) == /\ IsAsync(o, pend)
+AsyncOut(o) == /\ IsAsync(o, pend) /\ serving /\ peer # "deaf"
                /\ last' = [kind |-> "async", out |-> o]
-               /\ UNCHANGED <<pend, serving>>
+               /\ UNCHANGED <<pend, serving, peer>>
+
+(* the peer ends the conversation: orderly, by a reset, or by no longer taking our bytes *)
+PeerDoes(what) == /\ serving /\ peer = "open"
+                  /\ peer' = what
+                  /\ last' = [kind |-> "peer"]
+                  /\ UNCHANGED <<pend, serving>>
+
+(* the handler may end only after the peer did (and after an orderly end of input everything is answered) *)
+HandlerEnd == /\ serving /\ peer # "open"
+              /\ peer = "eof" => pend = <<>>
+              /\ serving' = FALSE
+              /\ last' = [kind |-> "end"]
+              /\ UNCHANGED <<pend, peer>>
 
 LNext == \/ \E c \in Classes : Len(pend) < MaxPend /\ Arrive(Cat[c])
          \/ \E o \in (IF pend = <<>> THEN {} ELSE ReplySet(Head(pend))) : Answer(o)
          \/ \E a \in AsyncActions : AsyncOut(MkOut(a, "m:p", FALSE, "", ""))
+         \/ \E w \in {"eof", "reset", "deaf"} : PeerDoes(w)
+         \/ HandlerEnd
 
 Belongs == last.kind = "reply" => ActionOK(last.req, last.out) /\ SpecOK(last.req, last.out)
 ErrorClassIsSECoP == last.kind = "reply" => ErrOK(last.out)
 EveryLineWellFormed == last.kind \in {"reply", "async"} => WellFormedOut(last.out)
-HandlerSurvives == serving
+HandlerSurvives == serving \/ peer # "open"         \* no INPUT ends the handler, only the peer's leaving
+AnsweredAtEOF == (~serving /\ peer = "eof") => pend = <<>>
 OnePerLine == [][/\ (last'.kind = "reply" /\ last' # last) => pend' = Tail(pend)
                  /\ Len(pend') < Len(pend) => (last'.kind = "reply" /\ last'.req = Head(pend))]_lvars
+(* once a send has failed the line on the wire may be torn: nothing more is written on this connection *)
+NoWriteAfterFailure == [][peer = "deaf" => (last' = last \/ last'.kind \notin {"reply", "async"})]_lvars
 
 (* ======================================================================== *)
 (* layer 3: sending (every line is written in two halves)                   *)
 (* ======================================================================== *)
 VARIABLES lock,     \* holder of the connection's send lock or "free"
-          pc        \* per thread: "idle" | "locked" | "half" (first half of its line is on the wire)
-svars == <<lock, pc>>
+          pc,       \* per thread: "idle" | "locked" | "half" (first half of its line is on the wire)
+          torn      \* a send failed in the middle of a line
+svars == <<lock, pc, torn>>
 
-SInit == lock = "free" /\ pc = [th \in Threads |-> "idle"]
+SInit == lock = "free" /\ pc = [th \in Threads |-> "idle"] /\ torn = FALSE
 Acquire(th) == /\ pc[th] = "idle"
                /\ UseLock => lock = "free"
                /\ lock' = IF UseLock THEN th ELSE lock
                /\ pc' = [pc EXCEPT ![th] = "locked"]
+               /\ UNCHANGED torn
 Half1(th) == /\ pc[th] = "locked"
+             /\ CheckRunning => ~torn          \* "if self.running" under the lock
              /\ pc' = [pc EXCEPT ![th] = "half"]
-             /\ UNCHANGED lock
+             /\ UNCHANGED <<lock, torn>>
+Skip(th) == /\ pc[th] = "locked" /\ torn       \* connection known to be broken: write nothing
+            /\ pc' = [pc EXCEPT ![th] = "idle"]
+            /\ lock' = IF UseLock THEN "free" ELSE lock
+            /\ UNCHANGED torn
 Half2(th) == /\ pc[th] = "half"
              /\ pc' = [pc EXCEPT ![th] = "idle"]
              /\ lock' = IF UseLock THEN "free" ELSE lock
-SNext == \E th \in Threads : Acquire(th) \/ Half1(th) \/ Half2(th)
+             /\ UNCHANGED torn
+Fail(th) == /\ pc[th] = "half" /\ ~torn        \* the second half cannot be written
+            /\ pc' = [pc EXCEPT ![th] = "idle"]
+            /\ lock' = IF UseLock THEN "free" ELSE lock
+            /\ torn' = TRUE
+SNext == \E th \in Threads : Acquire(th) \/ Half1(th) \/ Half2(th) \/ Skip(th) \/ Fail(th)
 
-(* no output line is split: never two lines partially written at the same time *)
+(* no output line is split: never two lines partially written at the same time, nothing after a torn line *)
 LinesWhole == Cardinality({th \in Threads : pc[th] = "half"}) <= 1
+NoGlue == torn => \A th \in Threads : pc[th] # "half"
 
 (* ======================================================================== *)
 vars == <<fvars, lvars, svars>>
